@@ -366,6 +366,16 @@ def run(ctx):
                     return 5.001e-8 / (df[:, None] * 90.0) + 1e-9 * np.abs(ov)
                 e2e("octopus", ds, lambda: (ds.spec.to_octopus(p, ntime=ntime), p)[1], read_octopus, res, key={"missing_expressible": False},
                     note="ntime=%s%s" % ("chunked" if ntime else "all", ",gz" if gz else ""))
+                if ntime is None and "lon" in ds and "lat" in ds:
+                    # the same records without positions in the dataset: the caller names them in the call (lons=, lats=)
+                    bare = ds.drop_vars(["lon", "lat"])
+                    lo, la = np.asarray(ds.lon.values, float).copy(), np.asarray(ds.lat.values, float).copy()
+                    pk = os.path.join(tmp, "ok%d.oct" % k)
+                    e2e("octopus", ds, lambda: (bare.spec.to_octopus(pk, lons=lo, lats=la), pk)[1], read_octopus, res, key={"missing_expressible": False},
+                        note="positions given as lons=/lats=")
+                    ps = os.path.join(tmp, "sk%d.spec" % k)
+                    e2e("swan", ds, lambda: (bare.spec.to_swan(ps, lons=lo, lats=la), ps)[1], lambda q: read_swan(q, as_site=True),
+                        lambda ov: 2e-4 * np.nanmax(np.abs(ov)) + 0 * ov, note="positions given as lons=/lats=")
         # Funwave: one spectrum, directions within the unclipped range
         for k in range(6 if ctx.quick else 40):
             import xarray as xr
